@@ -144,7 +144,10 @@ class Module:
             self.parents[child] = node
             if isinstance(child, (ast.FunctionDef, ast.AsyncFunctionDef)):
                 q = prefix + child.name
-                self.funcs.setdefault(q, child)
+                prev = self.funcs.get(q)
+                # typing.overload stubs come first; the implementation is the undecorated definition
+                if prev is None or any("overload" in ast.unparse(d) for d in prev.decorator_list):
+                    self.funcs[q] = child
                 self.qual[child] = q
                 self._index(child, q + ".")
             elif isinstance(child, ast.ClassDef):
